@@ -315,16 +315,25 @@ theorem emitD_characterised (env : Env) (c : Cfg) (n i : Nat) (s : HState)
   | zero => exact emitWith_characterised env c i _ s hq hre
   | succ n => exact emitWith_characterised env c i _ s hq hre
 
+/-- a stream that breaks with OSError at any chunk: nothing leaves `print` -/
+theorem printP_failsAt_osError (c : Chunk) (sf : Bool) :
+    (Print.printP Gen.printProgram (oracleOf (.failsAt c .osError) sf)).escapes = none := by
+  cases c <;> cases sf <;> decide
+
 theorem print_tame (env : Env) (ht : StderrTame env) (i h : Nat) (m : Option Nat) (k : Err) (src : Src) :
     (print env i h m k src).2 = none := by
   unfold print
   split
   · simp [Gen.printSkipsWhenNoStderr]
   · rename_i e he
-    have := ht i h e he
+    have := ht.1 i h e he
     subst this
     simp [Gen.printSwallows]
   · simp [Gen.printGuardsRecordStr]
+  · rename_i c e he
+    have := ht.2 i h c e he
+    subst this
+    exact printP_failsAt_osError c _
 
 theorem emitWith_catch_ok (env : Env) (c : Cfg) (i : Nat) (inner : InnerAct → Step) (s : HState)
     (hc : c.catch_ = true) (ht : StderrTame env) (hb : (emitTry env c i inner s).res ≠ .blocked) :
@@ -698,6 +707,28 @@ theorem lookup_mem (hid : Nat) (reg : Reg) (p : Cfg × HState) (h : lookup hid r
     · simp only [Option.some.injEq] at h; simp [h]
     · simp [ih h]
 
+theorem removeW_good (env : Env) (hid k : Nat) (w : World) (hg : AllGood w.reg) :
+    AllGood (removeW env hid k w).w.reg ∧ (removeW env hid k w).res ≠ .blocked := by
+  simp only [removeW]
+  split
+  · exact ⟨hg, by simp⟩
+  · rename_i c s hl
+    simp only [Gen.removeUnpublishesFirst, if_true]
+    have hmem := lookup_mem hid w.reg (c, s) hl
+    refine ⟨fun p hp => hg p (erase_sub hid w.reg p hp), (stopH_quiet env c k s (hg (c, s) hmem).1).2⟩
+
+theorem removeLoop_good (env : Env) (k : Nat) (ids : List Nat) (w : World) (hg : AllGood w.reg) :
+    AllGood (removeLoop env k ids w).w.reg ∧ (removeLoop env k ids w).res ≠ .blocked := by
+  induction ids generalizing w with
+  | nil => exact ⟨hg, by simp [removeLoop]⟩
+  | cons hid rest ih =>
+    have h1 := removeW_good env hid k w hg
+    unfold removeLoop
+    simp only []
+    split
+    · exact ih _ h1.1
+    · exact h1
+
 theorem stepW_good (env : Env) (ht : StderrTame env) (n : Nat) (w : World) (op : Op) (hg : AllGood w.reg) :
     AllGood (stepW env n w op).w.reg ∧ (stepW env n w op).res ≠ .blocked := by
   cases op with
@@ -720,6 +751,7 @@ theorem stepW_good (env : Env) (ht : StderrTame env) (n : Nat) (w : World) (op :
       simp only [Gen.removeUnpublishesFirst, if_true]
       have hmem := lookup_mem hid w.reg (c, s) hl
       refine ⟨fun p hp => hg p (erase_sub hid w.reg p hp), (stopH_quiet env c k s (hg (c, s) hmem).1).2⟩
+  | removeAll k => exact removeLoop_good env k _ w hg
 
 /-- FOR EVERY HISTORY of log / complete / remove operations and every fault oracle: no operation ever
     blocks and every registered handler stays in working order -/
